@@ -19,8 +19,13 @@ from ..common import Report, pmap, harness_errors, rng, setup_repo
 
 PROP = 'C19'
 
-SHAPES_QUICK = [([2], 'csv'), ([0], 'csv'), ([2, 1], 'csv'), ([1, 0, 2], 'csv'), ([2], 'json'), ([1, 2], 'json'), ([0, 1, 1], 'json')]
-SHAPES_THOROUGH = SHAPES_QUICK + [([3, 3, 3], 'csv'), ([3, 3, 3], 'json'), ([0, 0], 'csv'), ([5], 'json'), ([1], 'csv'), ([1], 'json')]
+SHAPES_QUICK = [([2], 'csv'), ([0], 'csv'), ([2, 1], 'csv'), ([1, 0, 2], 'csv'), ([2], 'json'), ([1, 2], 'json'), ([0, 1, 1], 'json'),
+                # configurations of the dump itself: the per-resource hash switched off (only the size is recorded, and it must still be the
+                # size of the complete file); a package that was dumped before, loaded and is dumped again (its resources arrive with
+                # bytes / hash of their own, which must be replaced, not added to)
+                ([2, 1], 'csv', 'nohash'), ([1, 2], 'json', 'nohash'), ([2, 1], 'csv', 'redump'), ([0, 2], 'csv', 'redump')]
+SHAPES_THOROUGH = SHAPES_QUICK + [([3, 3, 3], 'csv'), ([3, 3, 3], 'json'), ([0, 0], 'csv'), ([5], 'json'), ([1], 'csv'), ([1], 'json'),
+                                  ([3, 0, 3], 'csv', 'nohash'), ([3, 3], 'csv', 'redump'), ([2000], 'csv', 'nohash')]
 
 
 def model(rep):
@@ -30,16 +35,20 @@ def model(rep):
     rep.add_tlc(res, 'Dump MaxRes=3: DescriptorLast, NoEarlyDescriptor with Kill between any two file operations')
 
 
-def build(shape, fmt, out):
-    from dataflows import Flow, dump_to_path
+def build(shape, fmt, out, variant='default', pre=None):
+    from dataflows import Flow, dump_to_path, load
+    if variant == 'redump':
+        return Flow(load(os.path.join(pre, 'datapackage.json')), dump_to_path(out, format=fmt))
     srcs = [[dict(r=r, k=k, v='val-%d-%d' % (r, k)) for k in range(1, n + 1)] for r, n in enumerate(shape, start=1)]
     # an empty list has no inferable schema: give it a declared one
     from ..common import tuple_source
     src = tuple_source([('res%d' % (i + 1), [('r', 'integer'), ('k', 'integer'), ('v', 'string')], rows) for i, rows in enumerate(srcs)])
+    if variant == 'nohash':
+        return Flow(src, dump_to_path(out, format=fmt, counters={'resource-hash': None, 'datapackage-hash': None}))
     return Flow(src, dump_to_path(out, format=fmt))
 
 
-def project(out, ref):
+def project(out, ref, variant='default'):
     """state of the output directory relative to the uninterrupted dump `ref` (dict path -> bytes)"""
     res = {'desc': 'absent', 'data': [], 'listed_ok': True}
     dpj = os.path.join(out, 'datapackage.json')
@@ -63,7 +72,7 @@ def project(out, ref):
                 res['listed_ok'] = False
                 continue
             data = open(p, 'rb').read()
-            if len(data) != r.get('bytes') or hashlib.md5(data).hexdigest() != r.get('hash'):
+            if len(data) != r.get('bytes') or (variant != 'nohash' and hashlib.md5(data).hexdigest() != r.get('hash')):
                 res['listed_ok'] = False
     return res
 
@@ -71,15 +80,22 @@ def project(out, ref):
 def crash_case(item):
     setup_repo()
     shape, fmt = item['shape'], item['fmt']
+    variant = item.get('variant', 'default')
     root = tempfile.mkdtemp(prefix='c19-', dir=tlc.WORK_ROOT)
     try:
+        pre = os.path.join(root, 'pre')
+        if variant == 'redump':
+            import contextlib
+            import io
+            with contextlib.redirect_stdout(io.StringIO()):
+                build(shape, fmt, pre).process()
         refdir = os.path.join(root, 'ref')
         reflog = os.path.join(root, 'ref.log')
 
         def ref():
             rec = fsrec.Recorder(reflog)
             fsrec.install_dump(rec, refdir)
-            build(shape, fmt, refdir).process()
+            build(shape, fmt, refdir, variant, pre).process()
         rc = fsrec.in_child(ref)
         if rc != 0:
             return {'__harness_error__': 'reference dump failed rc=%s' % rc}
@@ -104,7 +120,7 @@ def crash_case(item):
         def first():
             rec = fsrec.Recorder(log, mode=item['kind'], k=item['k'])
             fsrec.install_dump(rec, out)
-            build(shape, fmt, out).process()
+            build(shape, fmt, out, variant, pre).process()
         rc = fsrec.in_child(first)
         ops = fsrec.read_log(log)
         ev = []
@@ -121,7 +137,7 @@ def crash_case(item):
                 ev.append([o[0], i])
             elif o[0] == 'unlink':
                 ev.append(['unlink'])
-        post = project(out, refinfo) if os.path.isdir(out) else dict(desc='absent', data=['absent'] * len(paths), listed_ok=True)
+        post = project(out, refinfo, variant) if os.path.isdir(out) else dict(desc='absent', data=['absent'] * len(paths), listed_ok=True)
         return dict(nres=len(shape), ev=ev, post=post, rc=rc)
     finally:
         shutil.rmtree(root, ignore_errors=True)
@@ -145,19 +161,20 @@ def run():
     setup_repo()
     model(rep)
     shapes = SHAPES_QUICK if t == 'quick' else SHAPES_THOROUGH
-    counts = pmap(crash_case, [dict(shape=s, fmt=f, kind='count') for s, f in shapes], procs=8)
+    shapes = [(x[0], x[1], x[2] if len(x) > 2 else 'default') for x in shapes]
+    counts = pmap(crash_case, [dict(shape=s, fmt=f, variant=v_, kind='count') for s, f, v_ in shapes], procs=8)
     errs = harness_errors(counts)
     if errs:
         raise tlc.MachineryError('harness error: ' + errs[0])
     items = []
     total_ops = 0
-    for (s, f), c in zip(shapes, counts):
+    for (s, f, v_), c in zip(shapes, counts):
         total_ops += c['nops']
         ks = c['representative'] if t == 'quick' else range(1, c['nops'] + 1)
         for k in ks:
             for kind in ('kill_before', 'kill_after'):
-                items.append(dict(shape=s, fmt=f, kind=kind, k=k))
-        items.append(dict(shape=s, fmt=f, kind='kill_before', k=c['nops'] + 5))      # never fires: the complete dump
+                items.append(dict(shape=s, fmt=f, variant=v_, kind=kind, k=k))
+        items.append(dict(shape=s, fmt=f, variant=v_, kind='kill_before', k=c['nops'] + 5))      # never fires: the complete dump
     traces = pmap(crash_case, items, chunksize=2)
     errs = harness_errors(traces)
     if errs:
